@@ -6,7 +6,9 @@
                                      the cursor is put on the first byte of the old footer
      for row_group in data: make_row_group(f, ...)      many sequential f.write calls
      foot_size = write_thrift(f, fmd); f.write(le32 foot_size); f.write(b'PAR1')
-     (no truncate)
+     (no truncate on this path.  Since the repair of C18 the old footer bytes are read first and, if
+      anything raises, written back at the same position followed by truncate(); the success path
+      modelled here issues the same writes as before)
 
    OS semantics as in Impl/KV.v: a write at the cursor overwrites in place, extends the file when
    it runs past the end, and advances the cursor by the number of bytes written.              *)
